@@ -74,7 +74,7 @@ type opRec struct {
 type env struct {
 	v9   bool
 	vers [][]ref.Field
-	keys []key // 0: k, 1: same shard as k, 2: another shard
+	keys []key // 0: k, 1: same shard as k, 2: another shard, 3: another template id of k's exporter
 }
 
 func (e *env) tmsg(k, v int) []byte {
@@ -139,6 +139,19 @@ func annProg(k int, vs ...int) prog {
 			flowh.Decode(e.v9, e.keys[k].addr, e.tmsg(k, v), c)
 			rec(opRec{tid, "write", k, v, s, sched.Step(), "decode template"})
 		}
+	}}
+}
+
+// annMultiProg: ONE message whose template set carries two template records (ids of the same exporter)
+func annMultiProg(ka, va, kb, vb int) prog {
+	return prog{fmt.Sprintf("announce-in-one-set(k%d:v%d,k%d:v%d)", ka, va, kb, vb), func(e *env, c *flowh.Caches, tid int, rec func(opRec)) {
+		s := sched.Step()
+		ts := []ref.Template{{ID: e.keys[ka].id, Fields: e.vers[va]}, {ID: e.keys[kb].id, Fields: e.vers[vb]}}
+		m := (&ref.Msg{V9: e.v9, Hdr: [5]uint32{1, 1, 1, 1, 1}, Sets: []ref.Set{{Kind: ref.SetTemplates, Templates: ts}}}).Encode(nil)
+		flowh.Decode(e.v9, e.keys[ka].addr, m, c)
+		end := sched.Step()
+		rec(opRec{tid, "write", ka, va, s, end, "decode template set (1st record)"})
+		rec(opRec{tid, "write", kb, vb, s, end, "decode template set (2nd record)"})
 	}}
 }
 
@@ -280,6 +293,9 @@ func scenarios() []scenario {
 	add("data|peer-get|other-same-shard", true, datProg(0, 2), rpcProg(0, 1), annProg(1, 2))
 	add("announce|dump|peer-get", true, annProg(0, 1, 2), dmpProg("a.json"), rpcProg(0, 2))
 	add("data|data|announce", false, datProg(0, 2), datProg(0, 2), annProg(0, 1, 2))
+	add("two-templates-in-one-set|data|data", false, annMultiProg(0, 1, 3, 4), datProg(0, 2), datProg(3, 2))
+	add("two-templates-in-one-set|dump|peer-get", true, annMultiProg(0, 2, 3, 3), dmpProg("a.json"), rpcProg(0, 2))
+	add("two-templates-in-one-set|dump|data", false, annMultiProg(0, 2, 3, 3), dmpProg("a.json"), datProg(0, 2))
 	return out
 }
 
@@ -427,6 +443,7 @@ func schedSpace(tier string) mck.Space {
 	}
 	return mck.FuncSpace{N: uint64(len(items)), F: func(idx uint64, c *mck.Ctx) {
 		it := items[idx]
+		tmpDirGet() // created here, not lazily by whichever scheduler thread dumps first
 		e := &env{v9: it.v9, vers: versions()}
 		// keys: k, one in the same shard, one in another shard (found empirically on the exported structure)
 		k0 := key{net.ParseIP("192.0.2.10"), 256}
@@ -449,7 +466,7 @@ func schedSpace(tier string) mck.Space {
 			return -1
 		}
 		s0 := shardOf(k0)
-		e.keys = []key{k0, {}, {}}
+		e.keys = []key{k0, {}, {}, {k0.addr, 257}}
 		for i := 1; i < 250 && (e.keys[1].addr == nil || e.keys[2].addr == nil); i++ {
 			k := key{net.ParseIP(fmt.Sprintf("198.51.100.%d", i)), 256}
 			if s := shardOf(k); s == s0 && e.keys[1].addr == nil {
@@ -562,10 +579,15 @@ func schedSpace(tier string) mck.Space {
 		// determinism gate: the first schedules replayed from their recorded choices must observe the same
 		var first [][]int
 		var firstObs []string
+		var gateReps []string
+		var gateScheds [][]int
 		sched.Explore(sched.Config{Bound: bound(tier), MaxExec: 12, OnExec: func(r *sched.Result) {
 			first = append(first, r.Choices)
 			firstObs = append(firstObs, getObs()+"|"+r.FailSig)
-			newRaceReport()
+			if rep := newRaceReport(); rep != "" { // the detector reports a racing pair once per process: keep it
+				gateReps = append(gateReps, rep)
+				gateScheds = append(gateScheds, r.Choices)
+			}
 		}}, body)
 		for i, ch := range first {
 			sched.Explore(sched.Config{Bound: 0, Prefix: ch, MaxExec: 1, OnExec: func(r *sched.Result) {
@@ -576,7 +598,28 @@ func schedSpace(tier string) mck.Space {
 				}
 			}}, body)
 		}
-		newRaceReport() // reports raised during the gate are re-raised by the exploration proper (per-schedule attribution)
+		if rep := newRaceReport(); rep != "" {
+			gateReps = append(gateReps, rep)
+			gateScheds = append(gateScheds, nil)
+		}
+		for gi, rep := range gateReps {
+			for _, one := range strings.Split(rep, "==================\nWARNING: DATA RACE") {
+				if !strings.Contains(one, "by goroutine") {
+					continue
+				}
+				sig := raceSig("WARNING: DATA RACE" + one)
+				if !reported[sig] {
+					reported[sig] = true
+					d := desc().(map[string]interface{})
+					d["schedule"] = fmt.Sprint(gateScheds[gi])
+					if len(one) > 3500 {
+						one = one[:3500]
+					}
+					d["race_report"] = "WARNING: DATA RACE" + one
+					c.Violation(proto+":"+sig, "data race reported in an explored schedule", d)
+				}
+			}
+		}
 		st := sched.Explore(sched.Config{Bound: bound(tier), OnExec: onExec}, body)
 		c.Count("executions", uint64(st.Executions))
 		c.Count("distinct_observation_logs", uint64(len(outcomes)))
